@@ -275,6 +275,10 @@ M_C09(pre, a, obs, post) ==
       \cup If(pre.cache[t].loaded /\ post.cache[t].loaded /\ pre.cache[t].per[u].in /\ post.cache[t].per[u].in
               /\ ~pre.cache[t].per[u].deleted /\ ~post.cache[t].per[u].deleted =>
                  post.cache[t].per[u].read >= pre.cache[t].per[u].read /\ post.cache[t].per[u].recv >= pre.cache[t].per[u].recv, "LiveMarksNeverDecrease")
+      \* a topic that is loaded by this step reports no mark below the stored one (marks never decrease across unload / reload)
+      \cup If(~pre.cache[t].loaded /\ post.cache[t].loaded /\ r0.st = "live" /\ r1.st = "live" /\ post.cache[t].per[u].in
+              /\ ~post.cache[t].per[u].deleted /\ ~post.cache[t].per[u].ischan =>
+                 post.cache[t].per[u].read >= r0.read /\ post.cache[t].per[u].recv >= r0.recv, "LoadedMarksNotBelowStored")
       \cup If(r0.st = "live" /\ r1.st = "live" /\ (r1.read # r0.read \/ r1.recv # r0.recv) =>
                  Actor(a) = u /\ IsReq(a) /\ a.t = t /\ (a.a = "Pub" \/ (a.a = "Note" /\ "R" \in Eff(r0))), "MarkMovesOnlyByOwnPublishOrNote")
       : uu \in Users }
